@@ -376,3 +376,33 @@ Proof.
   intros H1 H2. apply overlap_cert_sound in H1 as (_ & _ & _ & HI).
   apply gap_cert_sound in H2 as (_ & _ & HN). auto.
 Qed.
+
+(** ** C09: values returned by distance-only algorithms, judged against a certified enclosure *)
+From D3 Require Import Checker.Narrow.
+
+(** every value of [ds] lies in [lo - tau, up + tau], where [lo, up] is a certified enclosure of
+    the true distance (two untrusted member witnesses, one untrusted direction) *)
+Definition dist_values_cert (A B : sh) (wa wb : wit) (n : VQ) (lo up : Q) (ds : list Q) (tau : Q) : bool :=
+  enclosure_cert A B wa wb n lo up && Qle_bool 0 tau &&
+  forallb (fun d => Qle_bool (lo - tau) d && Qle_bool d (up + tau)) ds.
+
+(** [g] is the distance of the two sets: no pair is closer, some pair is that close *)
+Definition is_dist (A B : set3) (g : R) : Prop := dist_ge A B g /\ dist_le A B g.
+
+Theorem dist_values_cert_sound A B wa wb n lo up ds tau :
+  dist_values_cert A B wa wb n lo up ds tau = true ->
+  dist_ge (sem A) (sem B) (Q2R lo) /\ dist_le (sem A) (sem B) (Q2R up) /\
+  forall g, is_dist (sem A) (sem B) g ->
+    (Q2R lo <= g <= Q2R up)%R /\
+    forall d, In d ds -> (Rabs (Q2R d - g) <= Q2R tau + (Q2R up - Q2R lo))%R.
+Proof.
+  unfold dist_values_cert. intros H. apply andb_true_iff in H as (H & HF). apply andb_true_iff in H as (HE & HT).
+  apply enclosure_cert_sound in HE as (Hlo & Hup). apply Qle_bool_R in HT. rewrite Q2R_0 in HT.
+  split; auto. split; auto. intros g (Hg1 & Hg2).
+  assert (Hb : (Q2R lo <= g <= Q2R up)%R).
+  { destruct Hup as (a & b & Ha & Hb & Hab). destruct Hg2 as (a' & b' & Ha' & Hb' & Hab').
+    pose proof (Hg1 a b Ha Hb). pose proof (Hlo a' b' Ha' Hb'). lra. }
+  split; auto. intros d Hd. rewrite forallb_forall in HF. specialize (HF d Hd).
+  apply andb_true_iff in HF as (H1 & H2). apply Qle_bool_R in H1, H2. q2r.
+  unfold Rabs. destruct (Rcase_abs (Q2R d - g)); lra.
+Qed.
